@@ -330,6 +330,14 @@ func genK4(t *rapid.T, maxN int) []string {
 		}
 	}
 	tails := genK1(t, 12)
+	if rapid.IntRange(0, 3).Draw(t, "fantails") == 0 {
+		// the run is followed by a wide fan-out (a 257-bit node when it comes early enough)
+		nf := rapid.IntRange(11, 40).Draw(t, "nfan")
+		tails = tails[:0]
+		for i := 0; i < nf; i++ {
+			tails = append(tails, string([]byte{byte(5 + 6*i)})+"x")
+		}
+	}
 	set := map[string]struct{}{}
 	for _, tl := range tails {
 		k := string(p) + tl
